@@ -19,6 +19,7 @@ LEAVES = {
     ('performance_model',): [(0, 'performance/sample_performance_model.toml'),
                              (1, 'performance/random_test_ptf.toml'),
                              (98, 'performance/does_not_exist.toml')],
+    ('engine_file',): [(0, 'engines/sample_edb.xlsx'), (98, 'engines/no_such_edb.xlsx')],
     ('weather', 'use_weather'): [(1, True), (0, False), (99, [1, 2])],
     ('weather', 'weather_data_dir'): [(0, 'weather'), (98, 'no_such_weather_dir')],
     ('emissions', 'co2_enabled'): [(1, True), (0, False), (99, [3])],
@@ -185,6 +186,8 @@ def impl_run(chk: Check, ops, idx):
                 cf = None
                 if op['fk'] == 'FkOpen':
                     cf = chk.tmp / f'missing_{idx}_{j}.toml'
+                    if op.get('bad_toml'):
+                        cf.write_text('this is = = not toml [[[\n')
                 elif op['use_file']:
                     cf = chk.tmp / f'cfg_{idx}_{j}.toml'
                     cf.write_text(toml_text(to_python_data(op['file'])))
@@ -197,7 +200,7 @@ def impl_run(chk: Check, ops, idx):
                 Config.get()
                 outs.append('OkUnit')
             elif k == 'read':
-                obj = config
+                obj = Config.get() if op.get('via') == 'get' else config
                 try:
                     for key in op['path']:
                         obj = getattr(obj, key)
@@ -205,7 +208,7 @@ def impl_run(chk: Check, ops, idx):
                 except AttributeError:
                     outs.append(['OkVal', None])
             elif k == 'mutate':
-                obj = config
+                obj = Config.get() if op.get('via') == 'get' else config
                 for key in op['path'][:-1]:
                     obj = getattr(obj, key)
                 setattr(obj, op['path'][-1], op['value'])
@@ -217,6 +220,8 @@ def impl_run(chk: Check, ops, idx):
             outs.append('ErrAlready' if 'already been initialized' in str(e) else f'RuntimeError:{e}')
         except FileNotFoundError as e:
             outs.append('ErrOpen' if 'No such file or directory' in str(e) else 'ErrPath')
+        except tomllib.TOMLDecodeError:
+            outs.append('ErrOpen')
         except ValueError as e:
             outs.append('ErrNotSet' if 'configuration is not set' in str(e) else f'ValueError:{e}')
         except Exception as e:  # noqa: BLE001
@@ -275,9 +280,11 @@ def gen_history(rng, defaults):
             kwargs = gen_tree(rng, 0.3, bad, shape)
             eff = overlay(defaults, overlay(file, kwargs))
             fk = classify(eff, defaults)
-            if rng.random() < 0.07:
-                fk = 'FkOpen'
-            ops.append({'op': 'load', 'file': file, 'kwargs': kwargs, 'use_file': use_file, 'fk': fk})
+            op = {'op': 'load', 'file': file, 'kwargs': kwargs, 'use_file': use_file, 'fk': fk}
+            if rng.random() < 0.09:
+                op['fk'] = 'FkOpen'
+                op['bad_toml'] = rng.random() < 0.5
+            ops.append(op)
         elif r < 0.55:
             ops.append({'op': 'reset'})
         elif r < 0.62:
@@ -286,11 +293,14 @@ def gen_history(rng, defaults):
             path = list(rng.choice(list(LEAVES)))
             if rng.random() < 0.08:
                 path = path[:-1] + ['no_such_setting']
-            ops.append({'op': 'read', 'path': path})
+            ops.append({'op': 'read', 'path': path, 'via': rng.choice(['proxy', 'proxy', 'get'])})
         else:
             path = list(rng.choice(list(LEAVES)))
             vals = [pv for c, pv in LEAVES[tuple(path)] if c < 90]
-            ops.append({'op': 'mutate', 'path': path, 'value': rng.choice(vals + [None])})
+            if rng.random() < 0.15 and len(path) == 2:
+                path, vals = path[:1], []          # replace a whole section
+            ops.append({'op': 'mutate', 'path': path, 'value': rng.choice(vals + [None]),
+                        'via': rng.choice(['proxy', 'proxy', 'get'])})
     return ops
 
 
@@ -366,6 +376,8 @@ def check_histories(chk: Check, histories, defaults):
             chk.count('op:' + o['op'] + (':' + o['fk'] if o['op'] == 'load' else ''))
         want = oracle_run(defaults, ops)
         if io != want:
+            ops = shrink(chk, ops, defaults)
+            io, want = impl_run(chk, ops, 999999), oracle_run(defaults, ops)
             j = next(i for i, (a, b) in enumerate(zip(io, want)) if a != b)
             sig = None
             # narrow signature of F16: a path failure on an unconfigured system leaves the singleton set
@@ -383,6 +395,20 @@ def check_histories(chk: Check, histories, defaults):
             chk.broken('correspondence:C18_Model.run', f'model {mo2} vs implementation {io}', {'ops': ops})
         else:
             chk.traces_validated += 1
+
+
+def shrink(chk, ops, defaults):
+    """greedy: drop operations while implementation and reference machine still disagree"""
+    cur = list(ops)
+    changed = True
+    while changed and len(cur) > 1:
+        changed = False
+        for i in range(len(cur)):
+            cand = cur[:i] + cur[i + 1:]
+            if impl_run(chk, cand, 999998) != oracle_run(defaults, cand):
+                cur, changed = cand, True
+                break
+    return cur
 
 
 def run(chk: Check):
